@@ -121,6 +121,12 @@ theorem allocA_spec {c k : Nat} {p0 : PImg} (ps : PS) (h : OKhdr c p0 k ps.pm) :
 /-- nothing is unsynced and the durable meta page equals the in-memory one -/
 def Synced (fs : FS) (pm : Meta) : Prop := fs.pj = [] ∧ fs.pd.hdr = pm
 
+/-- nothing that matters is unsynced and the durable meta page equals the in-memory one -/
+def SyncedI (fs : FS) (pm : Meta) : Prop := Inert fs.pj ∧ fs.pd.hdr = pm
+
+theorem Synced.toI {fs : FS} {pm : Meta} (h : Synced fs pm) : SyncedI fs pm :=
+  ⟨by rw [h.1]; exact inert_nil, h.2⟩
+
 theorem synced_of_endsFlushed {fs : FS} {acts : List Action} {pm : Meta} (h : EndsFlushed acts pm) :
     Synced (fs.steps (ioSteps acts)) pm := steps_flushed fs _ pm h
 
@@ -175,11 +181,11 @@ theorem ng_slot_succ {N : List Nat} {c k : Nat} {p0 p : PImg} (h : NG N c p0 k p
     power-loss image with a node table that recovery can complete; at the end the node is counted. -/
 theorem nodeA_safe {cfg : Cfg} {N : List Nat} {c k : Nat} {p0 : PImg} (b0 : Booted p0)
     (hsync : cfg.syncSlot = true) (fs : FS) (ps : PS) (id : IdSt) (x : Nat)
-    (hB : AllImgs fs (NG N c p0 k)) (hS : Synced fs ps.pm) (hpm : OKhdr c p0 k ps.pm)
+    (hB : AllImgs fs (NG N c p0 k)) (hS : SyncedI fs ps.pm) (hpm : OKhdr c p0 k ps.pm)
     (hlen : ps.pm.i2eLen = k) (hidl : id.len = k) (hids : id.start = ps.pm.i2eStart)
     (hnp : 1 ≤ ps.pm.nextPage) (hk : k < N.length) (hx : x = getSlot N k) (hck : c ≤ k) :
     failOf (nodeA cfg ps id x).1 = none ∧
-    SafeAlong (fun fs => AllImgs fs (PagerOK N c)) fs (ioSteps (nodeA cfg ps id x).1) ∧
+    SafeAlong (fun fs => AllImgs fs (fun p => PagerOK N c p ∧ Frame p0 p)) fs (ioSteps (nodeA cfg ps id x).1) ∧
     AllImgs (fs.steps (ioSteps (nodeA cfg ps id x).1)) (NG N c p0 (k + 1)) ∧
     Synced (fs.steps (ioSteps (nodeA cfg ps id x).1)) (nodeA cfg ps id x).2.1.pm ∧
     OKhdr c p0 (k + 1) (nodeA cfg ps id x).2.1.pm ∧
@@ -240,8 +246,8 @@ theorem nodeA_safe {cfg : Cfg} {N : List Nat} {c k : Nat} {p0 : PImg} (b0 : Boot
     rcases List.mem_append.mp hs with h | h
     · exact (hblock_flush hok1).steps s (by simpa [ioSteps_flushA] using h)
     · exact (hblock_flush hok2).steps s (by simpa [ioSteps_flushA] using h))
-  have toOK : ∀ kk, kk ≤ N.length → ∀ g : FS, AllImgs g (NG N c p0 kk) → AllImgs g (PagerOK N c) :=
-    fun kk hkk g hg => allImgs_mono g _ _ hg (fun p hp => hp.pagerOK b0 hkk)
+  have toOK : ∀ kk, kk ≤ N.length → ∀ g : FS, AllImgs g (NG N c p0 kk) → AllImgs g (fun p => PagerOK N c p ∧ Frame p0 p) :=
+    fun kk hkk g hg => allImgs_mono g _ _ hg (fun p hp => ⟨hp.pagerOK b0 hkk, hp.frame⟩)
   have hfinal : fs.steps (ioSteps (nodeA cfg ps id x).1) = fsC.steps (flushSteps pm1 ++ flushSteps pm2) := by
     rw [hsteps, steps_append, hfsA]
     show (fsA.steps ([Step.pg (.slot k x) r0.2.2, Step.ps] ++ (flushSteps pm1 ++ flushSteps pm2))) = _
@@ -256,10 +262,10 @@ theorem nodeA_safe {cfg : Cfg} {N : List Nat} {c k : Nat} {p0 : PImg} (b0 : Boot
   · rw [hsteps]
     apply safeAlong_append (safeAlong_mono sA (toOK k (by omega)))
     rw [hfsA]
-    show SafeAlong (fun fs => AllImgs fs (PagerOK N c)) fsA
+    show SafeAlong (fun fs => AllImgs fs (fun p => PagerOK N c p ∧ Frame p0 p)) fsA
       (Step.pg (.slot k x) r0.2.2 :: Step.ps :: (flushSteps pm1 ++ flushSteps pm2))
-    refine safeAlong_cons (P := fun fs => AllImgs fs (PagerOK N c)) (toOK k (by omega) _ hBA) ?_
-    refine safeAlong_cons (P := fun fs => AllImgs fs (PagerOK N c)) (toOK k (by omega) _ hBB) ?_
+    refine safeAlong_cons (P := fun fs => AllImgs fs (fun p => PagerOK N c p ∧ Frame p0 p)) (toOK k (by omega) _ hBA) ?_
+    refine safeAlong_cons (P := fun fs => AllImgs fs (fun p => PagerOK N c p ∧ Frame p0 p)) (toOK k (by omega) _ hBB) ?_
     rw [hfsC]
     exact safeAlong_mono sD (toOK (k + 1) (by omega))
   · rw [hfinal]; exact safeAlong_last sD
@@ -287,12 +293,12 @@ theorem nodesA_safe {cfg : Cfg} {N : List Nat} {c : Nat} {p0 : PImg} (b0 : Boote
     (hsync : cfg.syncSlot = true) :
     ∀ (xs : List Nat) (k : Nat) (fs : FS) (ps : PS) (id : IdSt) (rest : List Nat),
       N.drop k = xs ++ rest →
-      AllImgs fs (NG N c p0 k) → Synced fs ps.pm → OKhdr c p0 k ps.pm →
+      AllImgs fs (NG N c p0 k) → SyncedI fs ps.pm → OKhdr c p0 k ps.pm →
       ps.pm.i2eLen = k → id.len = k → id.start = ps.pm.i2eStart → 1 ≤ ps.pm.nextPage → c ≤ k → k ≤ N.length →
       failOf (nodesA cfg ps id xs).1 = none ∧
-      SafeAlong (fun fs => AllImgs fs (PagerOK N c)) fs (ioSteps (nodesA cfg ps id xs).1) ∧
+      SafeAlong (fun fs => AllImgs fs (fun p => PagerOK N c p ∧ Frame p0 p)) fs (ioSteps (nodesA cfg ps id xs).1) ∧
       AllImgs (fs.steps (ioSteps (nodesA cfg ps id xs).1)) (NG N c p0 (k + xs.length)) ∧
-      Synced (fs.steps (ioSteps (nodesA cfg ps id xs).1)) (nodesA cfg ps id xs).2.1.pm ∧
+      SyncedI (fs.steps (ioSteps (nodesA cfg ps id xs).1)) (nodesA cfg ps id xs).2.1.pm ∧
       OKhdr c p0 (k + xs.length) (nodesA cfg ps id xs).2.1.pm ∧
       (nodesA cfg ps id xs).2.1.pm.i2eLen = k + xs.length ∧ (nodesA cfg ps id xs).2.2.len = k + xs.length ∧
       (nodesA cfg ps id xs).2.2.start = (nodesA cfg ps id xs).2.1.pm.i2eStart ∧
@@ -305,7 +311,7 @@ theorem nodesA_safe {cfg : Cfg} {N : List Nat} {c : Nat} {p0 : PImg} (b0 : Boote
       by simpa [nodesA] using hpm, by simpa [nodesA] using hlen, by simpa [nodesA] using hidl,
       by simpa [nodesA] using hids, by simpa [nodesA] using hnp⟩
     apply safeAlong_nil
-    exact allImgs_mono fs _ _ hB (fun p hp => hp.pagerOK b0 hkN)
+    exact allImgs_mono fs _ _ hB (fun p hp => ⟨hp.pagerOK b0 hkN, hp.frame⟩)
   | cons x xs ih =>
     intro k fs ps id rest hdrop hB hS hpm hlen hidl hids hnp hck hkN
     obtain ⟨hx, hk, hdrop'⟩ := getSlot_of_drop N k x (xs ++ rest) (by simpa using hdrop)
@@ -313,7 +319,7 @@ theorem nodesA_safe {cfg : Cfg} {N : List Nat} {c : Nat} {p0 : PImg} (b0 : Boote
       nodeA_safe b0 hsync fs ps id x hB hS hpm hlen hidl hids hnp hk hx.symm hck
     obtain ⟨nf2, sa2, hB2, hS2, ok2, len2, idl2, ids2, np2⟩ :=
       ih (k + 1) (fs.steps (ioSteps (nodeA cfg ps id x).1)) (nodeA cfg ps id x).2.1 (nodeA cfg ps id x).2.2 rest
-        hdrop' hB1 hS1 ok1 len1 idl1 ids1 np1 (by omega) (by omega)
+        hdrop' hB1 hS1.toI ok1 len1 idl1 ids1 np1 (by omega) (by omega)
     have hacts : (nodesA cfg ps id (x :: xs)).1 =
         (nodeA cfg ps id x).1 ++ (nodesA cfg (nodeA cfg ps id x).2.1 (nodeA cfg ps id x).2.2 xs).1 := rfl
     have hres : (nodesA cfg ps id (x :: xs)).2 = (nodesA cfg (nodeA cfg ps id x).2.1 (nodeA cfg ps id x).2.2 xs).2 := rfl
@@ -510,7 +516,7 @@ theorem memFacts_nodesA {cfg : Cfg} {N : List Nat} {c : Nat} {p0 : PImg} (b0 : B
     (hsync : cfg.syncSlot = true) :
     ∀ (xs : List Nat) (k : Nat) (fs : FS) (ps : PS) (id : IdSt) (rest : List Nat),
       N.drop k = xs ++ rest →
-      AllImgs fs (NG N c p0 k) → Synced fs ps.pm → OKhdr c p0 k ps.pm →
+      AllImgs fs (NG N c p0 k) → SyncedI fs ps.pm → OKhdr c p0 k ps.pm →
       ps.pm.i2eLen = k → id.len = k → id.start = ps.pm.i2eStart → 1 ≤ ps.pm.nextPage → c ≤ k → k ≤ N.length →
       MemFacts (memUpds (nodesA cfg ps id xs).1) ps.pm (nodesA cfg ps id xs).2.1.pm id.start
         (nodesA cfg ps id xs).2.2.start xs.length xs := by
@@ -523,7 +529,7 @@ theorem memFacts_nodesA {cfg : Cfg} {N : List Nat} {c : Nat} {p0 : PImg} (b0 : B
     obtain ⟨nf, _, hB1, hS1, ok1, len1, idl1, ids1, np1⟩ :=
       nodeA_safe b0 hsync fs ps id x hB hS hpm hlen hidl hids hnp hk hx.symm hck
     have h1 := memFacts_nodeA (cfg := cfg) (c := c) (k := k) (p0 := p0) ps id x hpm hids hnp
-    have h2 := ih (k + 1) _ (nodeA cfg ps id x).2.1 (nodeA cfg ps id x).2.2 rest hdrop' hB1 hS1 ok1 len1 idl1 ids1 np1
+    have h2 := ih (k + 1) _ (nodeA cfg ps id x).2.1 (nodeA cfg ps id x).2.2 rest hdrop' hB1 hS1.toI ok1 len1 idl1 ids1 np1
       (by omega) (by omega)
     have hacts : (nodesA cfg ps id (x :: xs)).1 =
         (nodeA cfg ps id x).1 ++ (nodesA cfg (nodeA cfg ps id x).2.1 (nodeA cfg ps id x).2.2 xs).1 := rfl
